@@ -28,6 +28,11 @@ fn statements(joined: &str) -> Vec<String> {
         "SELECT k, b, COUNT(*), STRING_AGG(s, ','), ARRAY_AGG(v) FROM t WHERE v IS NOT NULL GROUP BY k, b".into(),
         "SELECT k, COUNT(*) FROM t GROUP BY k HAVING COUNT(*) > 0 AND SUM(v) > 0 AND MAX(v) < 100 AND MIN(v) > 0".into(),
         "SELECT v, COUNT(DISTINCT k), BOOL_OR(b), PERCENTILE(v, 0.5) FROM t GROUP BY v".into(),
+        "SELECT k FROM t GROUP BY k HAVING COUNT(*) = 2 AND SUM(v) = 4".into(),
+        "SELECT k, COUNT(*) FROM t GROUP BY k HAVING MAX(v) = 7 AND MIN(v) = 1 AND COUNT(v) = 2 AND SUM(v) = 8".into(),
+        "SELECT k FROM t GROUP BY k HAVING SUM(v) > COUNT(*) AND MIN(v) < MAX(v)".into(),
+        "SELECT * FROM tt".into(),
+        "SELECT k, COUNT(*) FROM Tt GROUP BY k".into(),
         "SELECT COUNT(*), COUNT(DISTINCT k), COUNT(DISTINCT s), STDDEV(v) FROM t".into(),
         "SELECT array_unique(ARRAY[v, 3, 1, v]), upper(k) FROM t".into(),
     ];
@@ -46,6 +51,8 @@ fn def_contexts() -> Vec<String> {
         format!("{}\n{}", JDEF, JDEF_U),
         format!("{}\n{}\n{}", EXTRA1, JDEF, JDEF_U),
         format!("{}\n{}\n{}\n{}", JDEF_U, EXTRA2, JDEF, EXTRA1),
+        // tables whose names differ only in letter case (a query naming none of them exactly must behave the same in every run)
+        format!("{}\n{}\n{}\n{}", JDEF.replace("TABLE t(", "TABLE TT("), JDEF, JDEF.replace("TABLE t(", "TABLE tT(").replace("{ .v } => v INT", "{ .s } => v TEXT"), JDEF_U),
     ]
 }
 
